@@ -3890,4 +3890,80 @@ theorem exWriteQueryUnion_exact (env : Env) (isInsert : Bool) (tgt : List String
       rw [hbE]; simp
 
 
+/-- **end to end, statement level, set operation** -/
+theorem analyze_exact_setop (env : Env) (silent : Bool) (s : Stmt) (hp : env.prov.truthy = false)
+    (hs : fragStmtSetop env s = true) :
+    ∃ g, analyze env silent s = .ok g ∧
+      EdgesExact g (specPairsUnion env (stmtTarget s) (stmtParts s)) ((stmtParts s).flatMap (fun b => fromTabs env b.2)) [] := by
+  cases s with
+  | insert kd tk tgt cols q br =>
+    cases cols with
+    | some _ => simp [fragStmtSetop] at hs
+    | none =>
+      cases q with
+      | select _ _ _ _ _ _ => simp [fragStmtSetop, fragSetop] at hs
+      | withq _ _ => simp [fragStmtSetop, fragSetop] at hs
+      | setop first rest =>
+        have := exWriteQueryUnion_exact env true tgt first rest hp (by simpa [fragStmtSetop] using hs)
+        unfold analyze
+        have hd : dispatch (stmtType (.insert kd tk tgt none (.setop first rest) br)) = some "CreateInsertExtractor" :=
+          disp_insert
+        rw [hd]
+        exact this
+  | ctas tgt orr ine q br =>
+    cases q with
+    | select _ _ _ _ _ _ => simp [fragStmtSetop, fragSetop] at hs
+    | withq _ _ => simp [fragStmtSetop, fragSetop] at hs
+    | setop first rest =>
+      have := exWriteQueryUnion_exact env false tgt first rest hp (by simpa [fragStmtSetop] using hs)
+      unfold analyze
+      have hd : dispatch (stmtType (.ctas tgt orr ine (.setop first rest) br)) = some "CreateInsertExtractor" :=
+        disp_create_table
+      rw [hd]
+      exact this
+  | createView tgt orr cols q =>
+    cases cols with
+    | some _ => simp [fragStmtSetop] at hs
+    | none =>
+      cases q with
+      | select _ _ _ _ _ _ => simp [fragStmtSetop, fragSetop] at hs
+      | withq _ _ => simp [fragStmtSetop, fragSetop] at hs
+      | setop first rest =>
+        have := exWriteQueryUnion_exact env false tgt first rest hp (by simpa [fragStmtSetop] using hs)
+        unfold analyze
+        have hd : dispatch (stmtType (.createView tgt orr none (.setop first rest))) = some "CreateInsertExtractor" :=
+          disp_create_view
+        rw [hd]
+        exact this
+  | query _ _ => simp [fragStmtSetop] at hs
+  | insertValues _ _ _ => simp [fragStmtSetop] at hs
+  | createTable _ _ _ => simp [fragStmtSetop] at hs
+  | createTableLike _ _ => simp [fragStmtSetop] at hs
+  | update _ _ _ _ _ => simp [fragStmtSetop] at hs
+  | merge _ _ _ _ _ _ => simp [fragStmtSetop] at hs
+  | copy _ _ => simp [fragStmtSetop] at hs
+  | drop _ _ _ => simp [fragStmtSetop] at hs
+  | alterRename _ _ => simp [fragStmtSetop] at hs
+  | renameTable _ => simp [fragStmtSetop] at hs
+  | noop _ _ => simp [fragStmtSetop] at hs
+  | unsupported _ => simp [fragStmtSetop] at hs
+
+theorem mem_unionBranchPairs (env : Env) (tgt : List String) (its1 : List Item) (b : List Item × List FromExpr) (u v : Node) :
+    (u, v) ∈ unionBranchPairs env tgt its1 b ↔
+      ∃ e a k it1, (Item.mk e a k, it1) ∈ b.1.zip its1 ∧ ∃ r ∈ refs e,
+        u ∈ srcKeys env.importDefault (fromTabs env b.2) (normRef r) ∧ v = (tgtCol env tgt it1).key := by
+  unfold unionBranchPairs
+  rw [List.mem_flatMap]
+  constructor
+  · rintro ⟨ii, hii, h⟩
+    obtain ⟨⟨e, a, k⟩, it1⟩ := ii
+    obtain ⟨r, hr, h0⟩ := List.mem_flatMap.mp h
+    obtain ⟨x, hx, h1⟩ := List.mem_map.mp h0
+    simp only [Prod.mk.injEq] at h1
+    exact ⟨e, a, k, it1, hii, r, hr, by rw [← h1.1]; exact hx, h1.2.symm⟩
+  · rintro ⟨e, a, k, it1, hii, r, hr, h1, h2⟩
+    refine ⟨(.mk e a k, it1), hii, List.mem_flatMap.mpr ⟨r, hr, List.mem_map.mpr ⟨u, h1, ?_⟩⟩⟩
+    rw [h2]
+
+
 end SqlLineage.ColumnsExact
